@@ -7,6 +7,22 @@ ROOT = os.path.dirname(os.path.dirname(os.path.abspath(__file__)))
 
 CHECKS = {
  # id: (technique, level text, level note, design ref)
+ "C01": ("reference-model monitor (sorted slice with tags) after every call; phase-structured adversarial histories over several betas; clone population; shape-derived reach counters",
+         "Runs the real stree.Tree against a sorted-slice reference under the same comparator (including a coarser comparator so that the stored representative is observable) and compares Len, IsEmpty, Min, Max, the full Inorder with stored tags, early stop, Get and InorderAfter after every single call of histories that force scapegoat rebuilds, delete-side rebuilds and two-child removals, on up to three live clones at once. Held = no divergence on the executions listed in the evidence.",
+         "Trusts the sorted-slice reference and the Go runtime; tree shape (used only for reach counters) is read through stree.Cursor.",
+         "DESIGN.md §5 C01"),
+ "C02": ("invariant monitor: measured depth (through Root/Left/Right/Up) against the real-valued scapegoat bound after every operation, with the monitor's own peak-size tracking; comparator-call counter on Get; height of bulk-built trees",
+         "After every Add/Replace/Remove of adversarial and random histories (sorted, reverse, zig-zag, bisection, bit-reversal, sliding window, drain-to-empty-then-regrow) for many betas the monitor measures the depth of the deepest key and checks it against log_{2000/(1000+beta)}(P)+1 with P tracked by the monitor, counts the comparator calls of Get, and checks floor(log2 n) for bulk New. Held = bound respected at every one of the listed steps.",
+         "Trusts float64 log with 1e-9 slack in the code's favour; depth is read through the cursor API (C03).",
+         "DESIGN.md §5 C02"),
+ "C03": ("shadow-position monitor: structure read twice through the cursor API and validated as a BST over the reference set, then scripted sweeps and random walks of a cursor population checked after every move",
+         "For thousands of tree shapes (vines at beta=1000 to perfectly balanced at beta=0, with removals) checks Cursor(k) for every key and absent neighbours, full forward/backward sweeps with HasNext/HasPrev, subtree order/Inorder/Min/Max/Up at every node, random walks of up to four cloned cursors with all cursors re-checked after every move, and no-op behaviour of nil/invalid cursors. Held = no disagreement on the listed shapes and moves.",
+         "The shadow structure is itself read through the cursor API; it is accepted only if two independent readings agree and form a BST over exactly Tree.Inorder.",
+         "DESIGN.md §5 C03"),
+ "C04": ("reference-model monitor (sorted slice of pairs) after every mutation; iterator sweeps from First/Last/Seek for every target in both directions; re-Seek of live iterators; delete-while-iterating idiom; zero Map; shared copies",
+         "Runs omap.Map with four comparators against a sorted reference and, after every Set/Delete/Clear (through the map or a copy of it), compares Len/Get/GetOK/Keys/String and sweeps iterators from First, Last and Seek(k) for every k around the key range in both directions, re-seeks positioned iterators to every kind of target, and runs the documented delete-while-iterating idiom; histories drain below 1/8 of their peak. Held = no divergence on the listed executions.",
+         "Trusts the sorted-slice reference; key spelling under a case-folding comparator is compared with the map's own comparator only.",
+         "DESIGN.md §5 C04"),
  "C07": ("reference-model monitor (slice) after every operation; exhaustive short histories + scripted wrap/regrow scenarios + PRNG histories; internal-state reach counters via hook",
          "Runs the real queue.Queue against a slice reference and compares the full observable state (Len, IsEmpty, Front, Slice, Each, every Peek offset) after every single operation, over every history of bounded length for small preallocated sizes, scripted rotate-then-grow scenarios for every capacity 1..24 and head position, and tens of thousands of PRNG histories. Held = no divergence on the executions listed in the evidence file; nothing is proved beyond them.",
          "Trusts the slice reference model and the Go runtime. The VerifState hook feeds reach counters only.",
